@@ -397,6 +397,40 @@ def stack_rules(ctx: Ctx, fi, loop, out: str) -> None:
            and call_method(c)[0].id == out]
     ctx.check(bool(rem), "STACK", f"{FN}: notes still open at the end are removed from the output", function=FN,
               construct="no removal of notes left open at the end of the sequence", message="", file=fi.file, node=fi.node)
+    # ... and under no condition other than "it is in the output" (the only guard that cannot hide an open note)
+    from ..astutil import path_conditions
+    for c in rem:
+        arg = src(c.args[0]) if c.args else "?"
+        extra = []
+        for t, holds in path_conditions(c):
+            member = isinstance(t, ast.Compare) and len(t.ops) == 1 and src(t.left) == arg and src(t.comparators[0]) == out
+            if member and ((isinstance(t.ops[0], ast.In) and holds) or (isinstance(t.ops[0], ast.NotIn) and not holds)):
+                continue
+            extra.append(f"`{short(t, 60)}` {'holds' if holds else 'does not hold'}")
+        ctx.check(not extra, "STACK", f"{FN}: every note still open at the end is removed (`{short(c)}` guarded only by membership in the output)", function=FN,
+                  construct="the removal of notes left open at the end is skipped under a condition", message=f"runs only when {', '.join(extra)}: an unclosed note can survive",
+                  file=fi.file, node=c)
+        lps = [a for a in ancestors(c) if isinstance(a, ast.For)]
+        # what is removed are the elements of the stacks themselves: the loop that supplies the removed message walks a list that is
+        # read, inside the clean-up, from the table the outer clean-up loops walk
+        inner = next((lp_ for lp_ in lps if isinstance(lp_.target, ast.Name) and lp_.target.id == arg), None)
+        tables_ = {x.id for lp_ in lps for x in ast.walk(lp_.iter) if isinstance(x, ast.Name)} - {arg}
+        okw = False
+        if inner is not None:
+            it = inner.iter
+            if isinstance(it, ast.Name):
+                defs_ = [a_ for s_ in after for a_ in ast.walk(s_) if isinstance(a_, ast.Assign) and any(isinstance(t_, ast.Name) and t_.id == it.id for t_ in a_.targets)]
+                okw = len(defs_) == 1 and any(isinstance(x, ast.Name) and x.id in tables_ - {it.id} for x in ast.walk(defs_[0].value)) \
+                    and any(defs_[0] in ast.walk(lp_) for lp_ in lps)
+            else:
+                okw = any(isinstance(x, ast.Name) and x.id in tables_ for x in ast.walk(it))
+        ctx.check(okw, "STACK", f"{FN}: the clean-up walks the stacks of the open-note table", function=FN,
+                  construct="the clean-up of open notes does not walk the stacks of the open-note table",
+                  message=f"`{short(inner.iter) if inner is not None else '?'}` is not read from the table inside the clean-up loops (a list left over from the main loop?)",
+                  file=fi.file, node=inner or c)
+        ctx.check(not any(isinstance(x, (ast.Break, ast.Continue, ast.Return)) for lp_ in lps for x in ast.walk(lp_)), "STACK",
+                  f"{FN}: the clean-up visits every open note (no break / continue / return in its loops)", function=FN,
+                  construct="the clean-up of open notes leaves its loops early", message="", file=fi.file, node=c)
 
 
 def _block_of(n: ast.AST) -> list[ast.stmt]:
